@@ -93,6 +93,7 @@ fn programs() -> Vec<(Program, bool)> {
     v.push(mk("2 readers x3 hits/pool1/buffer1/channel1/consumer-stopped", 1, 1, Some(1), true, vec![vec![g(1), g(1), g(1)], vec![g(2), g(2), g(2)]]));
     v.push(mk("2 readers x2 hits/pool2/buffer1/channel1/consumer-stopped", 2, 1, Some(1), true, vec![vec![g(1), g(1)], vec![g(2), g(2)]]));
     v.push(mk("2 readers x3 hits/pool1/buffer1/channel1/consumer-slow", 1, 1, Some(1), false, vec![vec![g(1), g(1), g(1)], vec![g(2), g(2), g(2)]]));
+    v.push(mk("multi_get([a,a,b]) || multi_get_iterator([b,a,b])/pool1/buffer1/channel2", 1, 1, Some(2), false, vec![vec![Op::MultiRead { keys: vec![1, 1, 2], variant: ReadVariant::MultiGet }], vec![Op::MultiRead { keys: vec![2, 1, 2], variant: ReadVariant::MultiGetIterator }]]));
     v.push(mk("reader x4 hits || delete;put same key/pool1/buffer1/channel2", 1, 1, Some(2), false, vec![vec![g(1), g(1), g(1), g(1)], vec![del(2), put(2, 2)]]));
     v
 }
@@ -119,7 +120,7 @@ fn seq_spec(ctx: &Ctx, pool: usize, buffer: usize) -> SeqSpec {
         setup: Setup { weight: 100, pool, buffer, counters: 8, ..Setup::default() },
         world: Default::default(),
         prefix: vec![put(1, 2), put(2, 2)],
-        alphabet: vec![get(1), get(2), get(3), Op::MultiRead { keys: vec![1, 2, 3], variant: ReadVariant::MultiGet }, Op::Read { k: 1, variant: ReadVariant::GetRef }, del(2), put(2, 2)],
+        alphabet: vec![get(1), get(2), get(3), Op::MultiRead { keys: vec![1, 2, 3], variant: ReadVariant::MultiGet }, Op::MultiRead { keys: vec![1, 1, 2], variant: ReadVariant::MultiGet }, Op::MultiRead { keys: vec![2, 2], variant: ReadVariant::MultiGetMapIterator }, Op::Read { k: 1, variant: ReadVariant::GetRef }, del(2), put(2, 2)],
         depth: if ctx.quick() { 6 } else { 9 },
         allow: None,
         oracle: seq_oracle(),
